@@ -20,6 +20,11 @@ mod verif_c17 {
     #[kani::unwind(7)]
     fn c17_seq_drop_calls5() { drop_path(5); }
 
+    // @h name=c17_seq_drop_calls7 tier=thorough timeout=5400 mem=32 flags=-Z+unstable-options+--cbmc-args+--memory-leak-check
+    #[kani::proof]
+    #[kani::unwind(9)]
+    fn c17_seq_drop_calls7() { drop_path(7); }
+
     fn drop_path(calls: usize) {
         assert!(std::mem::needs_drop::<(Tk, Box<u8>)>());
         let s0: u8 = kani::any();
